@@ -379,6 +379,10 @@ pub fn value_pool() -> Vec<Value> {
     for b in [vec![], vec![0u8], vec![0x27, 0x5c, 0xff], b"abc".to_vec()] {
         p.push(b.into());
     }
+    // large payloads (a text and a blob of 100 bytes, a 300-byte text): anything keyed on size sees them
+    p.push("0123456789".repeat(10).into());
+    p.push("long 'text' \\ ".repeat(20).into());
+    p.push((0u8..100).collect::<Vec<u8>>().into());
     for j in [json!(null), json!(1), json!("it's"), json!({"k": [1, "x\\y", {"z": null}]}), json!([1.5, true])] {
         p.push(j.into());
     }
